@@ -315,6 +315,19 @@ fn bases() -> Vec<(RefOnt, &'static str)> {
     f.terms = vec![t(1, "All"), t(118, "Phenotypic abnormality"), t(7, "early id")];
     f.edges = vec![(118, 1), (7, 118)];
     out.push((RefOnt::derive(&f), "no records"));
+    // 5. records of one kind that share their name (names are not keys)
+    let mut f = Facts { version: (2024, 2, 29), ..Default::default() };
+    f.terms = vec![t(1, "All"), t(118, "Phenotypic abnormality"), t(200, "A"), t(201, "B")];
+    f.edges = vec![(118, 1), (200, 118), (201, 118)];
+    f.anns = vec![
+        Facts::ann(Kind::Gene, 11, "SAME", Some(200)),
+        Facts::ann(Kind::Gene, 12, "SAME", Some(201)),
+        Facts::ann(Kind::Omim, 600_001, "Same disease", Some(200)),
+        Facts::ann(Kind::Omim, 600_002, "Same disease", Some(201)),
+        Facts::ann(Kind::Orpha, 77, "Same disease", Some(200)),
+        Facts::ann(Kind::Orpha, 78, "Same disease", Some(118)),
+    ];
+    out.push((RefOnt::derive(&f), "records sharing a name"));
     out
 }
 
@@ -347,6 +360,17 @@ fn compare_pair(ctx: &mut Ctx, a: &RefOnt, oa: &Ontology, b: &RefOnt, history: &
             }
             if same != Report::default() {
                 ctx.violation("Ontology::compare", "comparing an ontology with itself reports differences", json!({"case": case(), "observed": format!("{same:?}")}));
+            }
+            // the new ontology against its own binary round trip (the library's writer and reader)
+            ctx.exec();
+            match guard(|| ob.as_bytes()).ok().and_then(|b| drive::from_bytes(&b).ok()).and_then(|r| r.ok()) {
+                Some(o2) => {
+                    let rep = guard(|| (observe(&ob, &o2), observe(&o2, &ob)));
+                    if rep.as_ref().ok() != Some(&(Report::default(), Report::default())) {
+                        ctx.violation("Ontology::compare", "comparing an ontology with its binary round trip reports differences", json!({"facts": b.to_facts().to_json(), "edits": history(), "observed": format!("{rep:?}")}));
+                    }
+                }
+                None => ctx.violation("Ontology::as_bytes -> from_bytes", "round trip fails", json!({"facts": b.to_facts().to_json()})),
             }
             // the same pair built through the Builder API
             if let (Some(ba), Some(bb)) = (build_via_builder(a), build_via_builder(b)) {
